@@ -1,6 +1,6 @@
 """C16: I/O failures are reported — F4 error propagation (E-prim and E-prop)."""
 from .facts import kind, strip, walk, path, render, int_val, is_int, calls_in, mem_field, unseen
-from .flow import PathAnalysis, fail_values, classify_ret, call_key, default_fail
+from .flow import PathAnalysis, fail_values, classify_ret, call_key, call_name, default_fail
 
 # storage primitives whose failure is an I/O failure
 PRIM_WRITE = {"fwrite", "fflush", "fclose", "write", "close", "ftruncate"}
@@ -77,7 +77,26 @@ def read_stream(prog, f, call):
         return False
 
     defs = [d for d in defs if not is_int(d)]
-    return bool(defs) and all(ro_open(d) for d in defs)
+    if bool(defs) and all(ro_open(d) for d in defs):
+        return True
+    # a local stream that this function opens and only ever tests against NULL and closes was never written either
+    def opened(d):
+        d = strip(d)
+        if kind(d) == "cond":
+            return opened(d[2]) and opened(d[3])
+        return kind(d) == "call" and d[1] == "fopen"
+    if not (defs and all(opened(d) for d in defs)):
+        return False
+    for _, _, _, n in f.nodes(True):
+        if n[0] == "call" and n is not call:
+            for arg in n[3]:
+                if any(x[0] == "var" and x[1] == a[1] for x in walk(arg, True)):
+                    return False
+        if n[0] == "ret" and n[1] is not None and any(x[0] == "var" and x[1] == a[1] for x in walk(n[1], True)):
+            return False
+        if n[0] == "asg" and any(x[0] == "var" and x[1] == a[1] for x in walk(n[3], True)):
+            return False
+    return True
 
 
 # write / commit functions whose failure must not be lost (slot fillers, confirmed by reading; see DESIGN Appendix B)
@@ -120,6 +139,11 @@ def libc_fail_outcome(call, op, n):
     return None
 
 
+def _resolved_names(prog, call, func):
+    from .rules_mem import _callee_names
+    return _callee_names(prog, call, func)
+
+
 class F4(PathAnalysis):
     """typestate = (unchecked: calls whose result has not been looked at, failed: calls a branch decided to have failed)"""
 
@@ -128,12 +152,17 @@ class F4(PathAnalysis):
         self.W = W
         self.findings = {}  # key -> (kind, line, callee)
         self.counts = {"sites": 0}
+        self._indirect = {}
         self.ro_aids = set()
         self.propagates = False
         self.swallow_for = None  # when set: failures are remembered for these callees only (the ones 'swallowed' is decided for)
         self.prop_keys = None  # when set: only failures of these call keys count as propagated
 
     def init_user(self, func):
+        self._retvars = set()
+        for _b, _i, _s, n in func.nodes(True):
+            if n[0] == "ret" and n[1] is not None and kind(strip(n[1])) == "var":
+                self._retvars.add(strip(n[1])[1])
         return (frozenset(), frozenset())
 
     def tracked_vars(self, func):
@@ -143,6 +172,18 @@ class F4(PathAnalysis):
             if n[0] == "asg" and kind(strip(n[2])) == "var" and kind(strip(n[3])) == "call" and strip(n[3])[1] in self.W:
                 t.add(strip(n[2])[1])
         return t
+
+    def _inW(self, call, func):
+        """direct callee in W, or an indirect call all of whose resolved targets... any of whose resolved targets is in W"""
+        if call[1]:
+            return call[1] in self.W
+        k = (call[5], call[6])
+        r = self._indirect.get(k)
+        if r is None:
+            names = _resolved_names(self.prog, call, func)
+            r = bool(names) and any(n in self.W for n in names)
+            self._indirect[k] = r
+        return r
 
     def _consumer(self, stmt_e, call):
         """how is the call's value used inside its statement: 'dropped' | 'void' | 'used'"""
@@ -180,18 +221,30 @@ class F4(PathAnalysis):
                 val = env.get(v)
                 if val is not None and val[0] == "r":
                     looked.add(val[1])
-            if looked:
-                u = {x for x in u if x[0] not in looked}
+            # the holder variable is remembered with the entry, so this also works where the path environment was degraded
+            u = {x for x in u if x[0] not in looked and not (x[2] is not None and x[2] in reads)}
+        if u:
+            # a holder that is overwritten by something else loses its (unseen) result for good
+            for x in walk(stmt["e"], True):
+                if x[0] == "asg" and x[1] == "=" and kind(strip(x[2])) == "var":
+                    hv = strip(x[2])[1]
+                    r = unseen(strip(x[3]))
+                    if not (kind(r) == "call" and r[1] in self.W) and any(y[2] == hv for y in u):
+                        u = {(y[0], y[1], None) if y[2] == hv else y for y in u}
         for c in calls_in(stmt["e"]):
             nm = c[1]
-            if nm in self.W:
+            if self._inW(c, func):
                 k = call_key(c)
                 self.counts["sites"] += 1
                 how = self._consumer(stmt["e"], c)
                 if how in ("dropped", "void"):
-                    u.add((k, how))
-                elif self._stored_in_var(stmt["e"], c):
-                    u.add((k, "held"))
+                    u.add((k, how, None))
+                else:
+                    hv = self._stored_in_var(stmt["e"], c)
+                    if hv:
+                        # an older result still held by the same variable is overwritten unseen: keep it, holder-less
+                        u = {(x[0], x[1], None) if x[2] == hv else x for x in u}
+                        u.add((k, "held", hv))
         # a W result copied into another call's argument or arithmetic counts as used; assignments keep 'held'
         return (frozenset(u), failed)
 
@@ -199,15 +252,15 @@ class F4(PathAnalysis):
         """`v = call` / `type v = call` with v a plain local: the only consumer is the variable"""
         for x in walk(e, True):
             if x[0] == "asg" and x[1] == "=" and unseen(strip(x[3])) is call and kind(strip(x[2])) == "var":
-                return True
+                return strip(x[2])[1]
             if x[0] == "decl":
                 for d in x[1]:
                     if d[2] is not None and unseen(strip(d[2])) is call:
-                        return True
-        return False
+                        return d[0]
+        return None
 
     def on_call_outcome(self, func, call, outcome, env, user):
-        if call[1] not in self.W:
+        if not self._inW(call, func):
             return user
         unchecked, failed = user
         k = call_key(call)
@@ -223,12 +276,15 @@ class F4(PathAnalysis):
         unchecked, failed = user
         ks = set()
         for x in walk(cond, True):
-            if x[0] == "call" and x[1] in self.W:
+            if x[0] == "call" and self._inW(x, func):
                 ks.add(call_key(x))
             elif x[0] == "var":
                 v = env.get(x[1])
                 if v is not None and v[0] == "r":
                     ks.add(v[1])
+                for y in unchecked:
+                    if y[2] == x[1]:
+                        ks.add(y[0])
         if ks:
             u = frozenset(x for x in unchecked if x[0] not in ks)
             c = strip(cond)
@@ -247,16 +303,17 @@ class F4(PathAnalysis):
         unchecked, failed = user
         cls = classify_ret(retval, self.fails)
         returned = retval[1] if retval and retval[0] == "r" else None
+        retvars = self._retvars
         if self.prop_keys is None:
-            if (cls == "fail" and failed) or (returned is not None and returned[0] in self.W):
+            if (cls == "fail" and failed) or (returned is not None and (returned[0] in self.W or returned[0].startswith("<"))):
                 self.propagates = True
         elif (cls == "fail" and failed & self.prop_keys) or (returned is not None and returned in self.prop_keys):
             self.propagates = True
         for k in failed:
             if cls == "ok" and func.ret != "void":
                 self._add(("swallowed", k), k)
-        for (k, how) in unchecked:
-            if k == returned:
+        for (k, how, holder) in unchecked:
+            if k == returned or (holder is not None and holder in retvars):
                 continue
             if cls == "fail":
                 continue  # cleanup on an already failing path
@@ -341,7 +398,7 @@ def close_W(prog, W0, funcs, Wall, log=None, write_only=False):
             f = funcs.get(nm)
             if f is None or nm in W or f.ret == "void" or nm not in Wall:
                 continue
-            if not any(c[1] in W for _, _, _, c in f.calls()):
+            if not any((c[1] in W) if c[1] else any(t in W for t in prog.callee_names(c, f)) for _, _, _, c in f.calls()):
                 continue
             a = F4(prog, W)
             a.fails = FAIL_OVERRIDE.get(nm) or fail_values(f, prog)
@@ -362,6 +419,26 @@ def close_W(prog, W0, funcs, Wall, log=None, write_only=False):
         if log is not None:
             log.append((rounds, sorted(new)))
     return W
+
+
+_WCACHE = {}
+
+
+def closed_W(ctx):
+    """W closure shared by the rules of one check run"""
+    key = id(ctx.prog)
+    if key not in _WCACHE:
+        prog = ctx.prog
+        Wall, Ww, funcs = compute_W(prog)
+        slots = set()
+        for (rec, fld), targets in prog.fp_targets().items():
+            if rec == "funclist_t" and fld in ("write", "endaccess"):
+                slots |= set(targets)
+            if fld in ("pgout",):
+                slots |= set(targets)
+        W0 = ((set(W_CORE) & Wall) | (slots & Wall) | PRIMS)
+        _WCACHE[key] = (close_W(prog, W0, funcs, Wall), W0)
+    return _WCACHE[key][0]
 
 
 def _layer(f):
@@ -390,14 +467,14 @@ def rule_F4(ctx):
             ctx.unrecognised("F4", "F4:core:%s" % nm, funcs[nm].where(), "%s no longer reaches a storage primitive" % nm)
         else:
             core.add(nm)
-    W0 = (core | (slots & Wall) | PRIMS)
-    wlog = []
-    W = close_W(prog, W0, funcs, Wall, wlog)
+    W = closed_W(ctx)
+    W0 = _WCACHE[id(ctx.prog)][1]
+    if not core <= W0:
+        ctx.unrecognised("F4", "F4:core", "-", "seed set of the closure differs from the verified core list")
     ctx.stats["W_seed"] = len(W0)
-    ctx.stats["W_closure_rounds"] = len(wlog)
     n_sites = 0
     for nm, f in sorted(funcs.items()):
-        if not any(c[1] in W for _, _, _, c in f.calls()):
+        if not any((c[1] in W) if c[1] else True for _, _, _, c in f.calls()):
             continue
         if _layer(f) == "legacy" and ctx.tier != "thorough":
             continue
@@ -422,8 +499,8 @@ def rule_F4(ctx):
             per.setdefault((what, callee), []).append(line)
         sites = {}
         for _, _, _, c in f.calls():
-            if c[1] in W:
-                sites.setdefault(c[1], set()).add((c[5], c[6]))
+            if a._inW(c, f):
+                sites.setdefault(call_name(c), set()).add((c[5], c[6]))
         for callee, st in sorted(sites.items()):
             n_sites += len(st)
             if callee in CLOSERS and all(read_handle(prog, f, c) for _, _, _, c in f.calls() if c[1] == callee):
@@ -439,7 +516,10 @@ def rule_F4(ctx):
             for (what, cal), lines in per.items():
                 if cal != callee:
                     continue
-                if what in ("swallowed", "unchecked") and callee not in W0:
+                if what == "swallowed" and callee not in W0:
+                    # the failure value of a derived function also encodes 'not found' / 'end of iteration': going on
+                    # after a tested failure is ordinary control flow there; only the seed functions fail for storage
+                    # reasons alone (DESIGN: clause not decided)
                     continue
                 lines = [l for l in lines if l not in ro_lines]
                 if lines:
@@ -479,6 +559,10 @@ F4_SITE_EXCEPT = {
     ("SDgetblocksize", "Hendaccess"): "temp_aid is released only when it came from Hstartread in this function (guard var->aid == FAIL): read handle, nothing written",
     ("Hopen", "HIread_version"): "documented: the version element is optional; on any failure the in-memory version stays 'unknown' and nothing is written",
     ("HIrelease_filerec_node", "hi_close_stdio"): "record destructor: Hclose closes the stream itself before calling it (stream pointer already NULL); the remaining callers are failing paths of Hopen",
+    ("HXPwrite", "hi_close_stdio"): "the remaining unchecked close releases the stream whose write has just failed (it was opened without write permission): nothing was ever buffered in it; the two re-open closes are checked",
+    ("*", "Hendaccess"): "lemma ATTACH (decided in the same check): a failing end-of-access never decrements file_rec->attach and Hclose returns FAIL while it is raised, so the failure is reported by the final close (replays: gr_deflate k=21-24, gr_two k=49)",
+    ("ANIcreate_ann_tree", "Hnextread"): "iteration idiom: the stored result is the loop condition of the next round; it is not read only when the other conjunct (i < nanns) already ended the loop",
+    ("hdf_read_ndgs", "Hnextread"): "iteration idiom: `status` is the condition of the enclosing while loop; the flagged path leaves the loop through a failing HGOTO_ERROR of another call",
     ("tbbt_printNode", "fflush"): "debug printer flushing stdout, not an HDF file stream",
     ("H4_ncabort", "H4_NC_free_cdf"): "ncabort discards the in-memory handle by contract (abort of a definition); reached for classic netCDF handles only (file_type != HDF_FILE)",
     ("NC_endef", "H4_NC_free_cdf"): "classic netCDF redef path (temporary-file rename): not an HDF4 file",
@@ -490,10 +574,117 @@ F4_SITE_EXCEPT = {
 }
 
 
+def _load_unconfirmed():
+    import os
+    up = os.path.join(os.path.dirname(os.path.dirname(os.path.abspath(__file__))), "rules", "f4_unconfirmed.txt")
+    out = {}
+    for line in open(up):
+        line = line.rstrip("\n")
+        if not line or line.startswith("#"):
+            continue
+        k, _, why = line.partition("\t")
+        out[k.strip()] = why.strip()
+    return out
+
+
+F4_UNCONFIRMED = _load_unconfirmed()
+
+
 def _f4_exception(prog, f, callee, what, write_side):
-    r = F4_SITE_EXCEPT.get((f.name, callee))
+    r = F4_SITE_EXCEPT.get((f.name, callee)) or (F4_SITE_EXCEPT.get(("*", callee)) if what in ("dropped", "void") else None)
     if r:
         return r
+    r = F4_UNCONFIRMED.get("F4:%s:%s:%s" % (f.name, callee, what))
+    if r:
+        return "unconfirmed candidate (rules/f4_unconfirmed.txt): " + r
     if not write_side and what in ("dropped", "void", "unchecked"):
         return "read-side callee (%s cannot reach a write primitive): a dropped failure cannot make written data incomplete" % callee
     return None
+
+
+class _AttachOnFail(PathAnalysis):
+    """user = True once `->attach--` has been executed on the path"""
+
+    def __init__(self, prog):
+        super().__init__(prog)
+        self.bad = []
+        self.seen_dec = False
+
+    def init_user(self, func):
+        return False
+
+    def on_stmt(self, func, bid, idx, stmt, env, user):
+        for x in walk(stmt["e"], True):
+            if x[0] == "incdec" and x[1] == "--" and (mem_field(x[3]) or (0, 0))[1] == "attach":
+                self.seen_dec = True
+                return True
+            if x[0] == "asg" and (mem_field(x[2]) or (0, 0))[1] == "attach":
+                self.seen_dec = True
+                return True
+        return user
+
+    def on_exit(self, func, bid, retval, env, user):
+        if user and classify_ret(retval, self.fails) == "fail":
+            self.bad.append(bid)
+
+
+class _CloseRefuses(PathAnalysis):
+    """Hclose: every path on which `file_rec->attach > 0` was seen true ends in a failure return"""
+
+    def __init__(self, prog):
+        super().__init__(prog)
+        self.bad = []
+        self.guards = 0
+
+    def init_user(self, func):
+        return False
+
+    def on_assume(self, func, bid, cond, pol, env, user):
+        c = strip(cond)
+        if kind(c) == "bin" and c[1] == ">" and (mem_field(c[2]) or (0, 0))[1] == "attach" and is_int(c[3]) and int_val(c[3]) == 0:
+            self.guards += 1
+            if pol:
+                return True
+        return user
+
+    def on_exit(self, func, bid, retval, env, user):
+        if user and classify_ret(retval, self.fails) != "fail":
+            self.bad.append(bid)
+
+
+def rule_attach_on_fail(ctx):
+    """Lemma behind the accepted idiom 'result of Hendaccess not looked at': a failing end-of-access leaves the file's
+    attach count raised, and Hclose refuses to close (returns FAIL) while it is raised -- so the failure stays visible."""
+    prog = ctx.prog
+    targets = set(prog.fp_targets().get(("funclist_t", "endaccess"), ())) | {"Hendaccess"}
+    n = 0
+    decs = 0
+    for nm in sorted(targets):
+        f = prog.func(nm)
+        if f is None:
+            ctx.unrecognised("ATTACH", "ATTACH:%s" % nm, "-", "end-of-access routine %s not found" % nm)
+            continue
+        a = _AttachOnFail(prog)
+        a.fails = fail_values(f, prog)
+        a.run(f)
+        n += 1
+        decs += 1 if a.seen_dec else 0
+        key = "ATTACH:%s" % nm
+        if a.bad:
+            ctx.violated("ATTACH", key, f.where(), "%s can return its failure value after `attach--`: the final Hclose would then succeed although "
+                         "ending the access failed, and callers that do not look at the result of Hendaccess hide the failure" % nm)
+        else:
+            ctx.holds("ATTACH", key, f.where(), "no failing return after `attach--`" if a.seen_dec else "does not touch the attach count",
+                      nontrivial=a.seen_dec)
+    f = prog.func("Hclose")
+    a = _CloseRefuses(prog)
+    a.fails = fail_values(f, prog)
+    a.run(f)
+    if not a.guards:
+        ctx.unrecognised("ATTACH", "ATTACH:Hclose", f.where(), "Hclose no longer tests `file_rec->attach > 0`")
+    elif a.bad:
+        ctx.violated("ATTACH", "ATTACH:Hclose", f.where(), "Hclose can return success although access elements are still attached")
+    else:
+        ctx.holds("ATTACH", "ATTACH:Hclose", f.where(), "every path with attach > 0 returns FAIL", nontrivial=True)
+    ctx.floor("ATTACH", 6, decs, "(end-of-access routines that decrement the attach count)")
+    return n
